@@ -190,6 +190,7 @@ CLAIMS = {
              "and unnamed grammars with left recursion and NO curtailment side condition: c06_upper_productive, c06_lower_productive, "
              "c06_exact_productive (reported position = furthest failing terminal, and a terminal failed exactly there), also for the "
              "certificate computed by Prod.productiveAuto (c06_*_auto) - Props/C06P.lean, 3 inductions over all cases of run. The "
+             "RENDERING IS TIED BY TRANSLATION (Props/C06Q.lean): FileSet.ErrorWithPosition and the Error() methods of parsley/error.go are translated from /repo on every run and proved equal to errorWithPosition / ErrKind.msg (c06q_translated_functions, c06q_error_values, c06q_notFound_rendered). The "
              "certificate is NECESSARY: plain CFG-productivity is not enough (c06_d12_cfg_productive_not_enough, finding D12 = the "
              "C06 face of D9) and every certificate rejects the D8 and D12 shapes (c06_d8_not_productive, c06_d12_not_productive). "
              "PARTIAL only in that the certificate's hypotheses (C02's wf, single-byte terminals scope) bound the grammars covered; "
@@ -230,7 +231,7 @@ CLAIMS = {
              "proof attempt exposed defect D11, fixed in /repo); float/duration for EVERY conversion function. Tied to "
              "text/terminal/*.go by a differential run over literal-shaped, boundary and malformed byte strings x offsets, with the Go "
              "conversions (strconv, time, utf8, regexp) called directly on the lexeme the model reports.",
-        note="THE TERMINAL CLOSURES THEMSELVES ARE TIED BY TRANSLATION (Props/C08Q.lean): the function literals and constructor prologues of Rune, Op, Word, Bool, Nil, Integer, Float, Char, String, TimeDuration, Regexp are translated from /repo on every run (factgen -out-term -> Generated/FactsTerm.lean) and proved to agree with Terminal.parse at every position - node kind, token, value, span, error kind / message / position, and the documented panics (c08_translated_terminals, c08q_constructors, c08q_documented_panics); totality and the node span are restated about the translated code (c08q_total, c08q_node_span). The regexp texts in the world contract are the printed syntax trees of Spec/Regex.lean, so a changed expression breaks the tie. 46 semantic edits each break a tie, 14 equivalent rewrites do not. "
+        note="THE TERMINAL CLOSURES THEMSELVES ARE TIED BY TRANSLATION (Props/C08Q.lean): the function literals and constructor prologues of Rune, Op, Word, Bool, Nil, Integer, Float, Char, String, TimeDuration, Regexp are translated from /repo on every run (factgen -out-term -> Generated/FactsTerm.lean) and proved to agree with Terminal.parse at every position - node kind, token, value, span, error kind / message / position, and the documented panics (c08_translated_terminals, c08q_constructors, c08q_documented_panics); totality and the node span are restated about the translated code (c08q_total, c08q_node_span). The regexp texts in the world contract are the printed syntax trees of Spec/Regex.lean, so a changed expression breaks the tie. 46 semantic edits each break a tie, 14 equivalent rewrites do not. THE TYPED LEAF NODE TYPES ARE TRANSLATED TOO (Props/C08R.lean): struct, constructor and Token / Schema / Value / Pos / ReaderPos / SetReaderPos of the eight node types of text/terminal and of ast.TerminalNode (63 functions, factgen prognode.go -> namespace FactsTerm.Src); the prelude constructors the closures call and the fields of the model's Node.term are proved to be what the translated accessors answer on the translated constructor, for all arguments (c08r_*_accessors, c08r_*_setReaderPos, c08r_prelude_constructors, c08r_*_model). "
              "TIED BY TRANSLATION (Props/C08P.lean): unquoteString (both loops; strconv.UnquoteChar a parameter with an explicit contract) is translated from /repo on every run and proved equal to the model (c08_translated_unquoteString), Readf over it agrees with the model, the consumed bytes never contain CR or LF (c08p_no_raw_linebreak). The terminal closures themselves are tied by the differential run. "
              "strconv.ParseFloat, time.ParseDuration and the regexp engine for user expressions are universally quantified parameters "
              "(contract: match length within the rest); strconv.ParseInt / UnquoteChar / utf8 are re-implemented and compared with "
@@ -275,7 +276,7 @@ CLAIMS = {
              "characterised (c11_crlf); the binary searches are Go's sort.Search loop. Tied to parsley/file_set.go and text/file.go by a "
              "differential run over random file sets x every global position and by regenerated constants/expressions.",
         note="text.NewFile (CRLF normalisation, default offset) is translated and tied too (c11p_newFile, c11p_replace_is_normCRLF). "
-             "TIED BY TRANSLATION (Props/C11P.lean): NewFileSet / AddFile / FileSet.Position (parsley.File dispatched to the translated text.File methods) and Position.String are translated from /repo on every run and proved equal to the model (c11_translated_functions); the round trip is restated about the translated code (c11p_roundtrip, c11p_unknown). ErrorWithPosition is not translated (opaque error / fmt.Errorf); its ingredients are. "
+             "TIED BY TRANSLATION (Props/C11P.lean): NewFileSet / AddFile / FileSet.Position (parsley.File dispatched to the translated text.File methods) and Position.String are translated from /repo on every run and proved equal to the model (c11_translated_functions); the round trip is restated about the translated code (c11p_roundtrip, c11p_unknown). FileSet.ErrorWithPosition, nilPosition.String and the error values of parsley/error.go (NotFoundError.Error, whitespaceError.Error, err.Error / Pos / Cause) are translated as well and proved equal to the model's errorWithPosition / ErrKind.msg (Props/C06Q.lean: c06q_translated_functions, c06q_errorWithPosition, c06q_error_values; trusted: fmt.Errorf(f, a...).Error() = fmt.Sprintf(f, a...), an Error value observed only through Pos() and Error()). "
              "sort.Search and bytes.Replace are re-implemented from their documentation; the lazily built line table is modelled as computed eagerly.",
         technique="Lean 4 theorems (induction over AddFile, binary-search lemma, line table) + differential correspondence + regenerated facts"),
     "C12": dict(
